@@ -67,6 +67,14 @@ class CliScenario:
             if isinstance(a, K):
                 return K(False)
             return None
+        if d.split(".")[-1] in ("get_full_name_for_node", "get_full_name_for_node_or_raise") and len(args) == 1:
+            # libcst.helpers: the dotted name a Name/Attribute node spells (leading dots of a relative import are not part of it)
+            a0 = args[0]
+            if isinstance(a0, K):
+                return a0
+            if isinstance(a0, R) and "value" in a0.fields:
+                return a0.fields["value"]
+            return None
         if d == "get_absolute_module_from_package_for_import" and len(args) == 2:
             # libcst.helpers: an absolute import names its module; a relative one is resolved against the package
             # (None when no package is given)
